@@ -163,9 +163,11 @@ def parse_terse(out):
         i += 1
     return res
 
-def run_kani(crate_dir, harnesses, features="", no_default=False, jobs=8, timeout=1500, extra_args=None, env=None, log_path=None):
+def run_kani(crate_dir, harnesses, features="", no_default=False, jobs=8, timeout=1500, extra_args=None, env=None, log_path=None, harness_timeout=600):
     """harnesses: list of names (function names; matched as suffix of module path)"""
     cmd = ["cargo", "kani", "--lib", "-Z", "function-contracts", "-Z", "stubbing", "--output-format", "terse", "-j", str(jobs)]
+    if harness_timeout:
+        cmd += ["-Z", "unstable-options", "--harness-timeout", "%ds" % harness_timeout]
     if features:
         cmd += ["--features", features]
     if no_default:
